@@ -595,3 +595,32 @@ pub fn has_adjacent_same_lists(blocks: &[CBlock]) -> bool {
         _ => false,
     })
 }
+
+/// Scan-level predicate for KF-ITEM-FIRST-BLOCK: a list item whose first block (raw HTML blocks
+/// are dropped by the reader and do not count) is a code block, quote, table or rule.
+pub fn has_item_first_block(s: &Scan) -> bool {
+    let mut found = false;
+    walk(&s.blocks, &mut |b, _| {
+        if matches!(b.kind, BKind::Item) {
+            if let Some(first) = b.children.iter().find(|c| !matches!(c.kind, BKind::Html)) {
+                if matches!(first.kind, BKind::Code { .. } | BKind::Quote | BKind::Table | BKind::Rule) {
+                    found = true;
+                }
+            }
+        }
+    });
+    found
+}
+
+/// Known-finding domains that are recognised on the scan of the input rather than excluded by
+/// generator construction. Returns the reason when the case lies in a domain whose feature is off.
+pub fn domain_discard(s: &Scan) -> Option<String> {
+    use crate::framework::feature_on;
+    if !feature_on("code_fence_in_body") && has_fence_in_code(s) {
+        return Some("known-domain: code body contains a fence line".into());
+    }
+    if !feature_on("item_first_block") && has_item_first_block(s) {
+        return Some("known-domain: list item starts with a code block, quote, table or rule".into());
+    }
+    None
+}
